@@ -44,8 +44,8 @@ package absconf
 type ChoiceKind int
 
 const (
-	KJoin ChoiceKind = iota // join the latest same-type property; no property of another block type lies between
-	KJoinFar // same, but a property of another block type lies between (global block order changes)
+	KJoin    ChoiceKind = iota // join the latest same-type property; no property of another block type lies between
+	KJoinFar                   // same, but a property of another block type lies between (global block order changes)
 	KLabelSplit
 	KContainer
 	KCut
